@@ -74,6 +74,11 @@ def main(argv):
                             keys.append(("route%d" % rng.randrange(5), "pk%d" % i))
                         else:
                             keys.append("k-%d-%d" % (rep, i))
+                    if n >= 2 and rng.random() < .7:
+                        # the same inner key under several routings, and also as a plain key
+                        base_k = "shared%d" % rep
+                        keys += [("routeA", base_k), ("routeB", base_k), base_k, ("routeC%d" % rep, base_k)]
+                        rng.shuffle(keys)
                     ncase += 1
                     ctx.case((repr(servers), pfx, pooling, repr(keys)), nontrivial=len(keys) > 0,
                              sample={"servers": servers, "prefix": hx(pfx), "pooling": pooling, "keys": repr(keys)[:100]} if ncase in (7, 30) else None)
@@ -107,22 +112,30 @@ def main(argv):
                     # set_many, then every single-key op must find the key on the same server
                     values = {k: b"v%d" % i for i, k in enumerate(keys)}
                     reset()
-                    failed = hc.set_many(values) if values else []
-                    m = seen_by()
-                    for k in keys:
-                        wk = wire(inner(k), pfx)
-                        want = expected_server(k)
-                        got = m.get(wk, [])
-                        if got != [want] and not (len(set(got)) == 1 and got[0] == want and len(got) > 1 and sum(1 for kk in keys if wire(inner(kk), pfx) == wk) > 1):
-                            ctx.violation("set_many did not send a key exactly once to the server placement assigns to it",
-                                          dict(case0, key=repr(k), saw=got, want=want), tags=["op:set_many"])
-                            break
+                    try:
+                        failed = hc.set_many(values) if values else []
+                    except Exception as e:
+                        ctx.violation("set_many raised on healthy servers with legal keys", dict(case0, keys=repr(keys)[:100], error=repr(e)[:100]), tags=["op:set_many"])
+                        continue
+                    observed = sorted((name, wk) for name, srv in server_logs(S).items() for cmd in srv.cmds for wk in keys_seen(cmd))
+                    expected = sorted({(expected_server(k), wire(inner(k), pfx)) for k in keys})
+                    if observed != expected:
+                        ctx.violation("set_many did not send each key exactly once to the server placement assigns to it (and to no other)",
+                                      dict(case0, keys=repr(keys)[:120], observed=[(a, hx(b)) for a, b in observed][:12], expected=[(a, hx(b)) for a, b in expected][:12]), tags=["op:set_many"])
+                        continue
                     if failed:
                         ctx.violation("set_many reported failed keys on healthy servers", dict(case0, failed=repr(failed)[:80]))
                     for op in ("get", "gets", "touch", "incr_like_append", "delete_then_set"):
                         for k in keys[:12]:
                             reset()
                             wk = wire(inner(k), pfx)
+                            try:
+                                if op == "get":
+                                    hc.get(k)
+                            except Exception as e:
+                                ctx.violation(f"{op} raised on healthy servers with a legal key", dict(case0, key=repr(k), error=repr(e)[:100]), tags=["op:" + op])
+                                break
+                            reset()
                             if op == "get":
                                 r = hc.get(k)
                                 ok = r == values[k] or any(inner(kk) == inner(k) and kk != k for kk in keys)
@@ -146,20 +159,23 @@ def main(argv):
                     # get_many: each key exactly once at its server; equals per-key gets
                     distinct_inner = len({inner(k) if isinstance(inner(k), bytes) else inner(k).encode() for k in keys}) == len(keys)
                     reset()
-                    gm = hc.get_many(keys) if keys else {}
+                    try:
+                        gm = hc.get_many(keys) if keys else {}
+                    except Exception as e:
+                        ctx.violation("get_many raised on healthy servers with legal keys", dict(case0, keys=repr(keys)[:100], error=repr(e)[:100]), tags=["op:get_many"])
+                        continue
                     m = seen_by()
                     per_server = {}
                     for name, srv in server_logs(S).items():
                         ks_here = [wk for cmd in srv.cmds for wk in keys_seen(cmd)]
                         if ks_here:
                             per_server[name] = ks_here
-                    for k in keys:
-                        wk = wire(inner(k), pfx)
-                        want = expected_server(k)
-                        cnt_req = sum(1 for kk in keys if wire(inner(kk), pfx) == wk and expected_server(kk) == want)
-                        if m.get(wk, []).count(want) != cnt_req or set(m.get(wk, [])) - {expected_server(kk) for kk in keys if wire(inner(kk), pfx) == wk}:
-                            ctx.violation("get_many did not send each key exactly once to its server", dict(case0, key=repr(k), saw=m.get(wk), want=want), tags=["op:get_many"])
-                            break
+                    observed = sorted((name, wk) for name, ks_here in per_server.items() for wk in ks_here)
+                    expected = sorted((expected_server(k), wire(inner(k), pfx)) for k in keys)
+                    if observed != expected:
+                        ctx.violation("get_many did not send each key exactly once to its server (and to no other)",
+                                      dict(case0, keys=repr(keys)[:120], observed=[(a, hx(b)) for a, b in observed][:12], expected=[(a, hx(b)) for a, b in expected][:12]), tags=["op:get_many"])
+                        continue
                     if distinct_inner:
                         singles = {}
                         for k in keys:
